@@ -22,7 +22,7 @@ METHODS = ["fifo", "lifo", "hifo", "lofo"]
 
 
 def items(pr):
-    out = [fn(AAM + "AbstractChronologicalAccountingMethod.seek_non_exhausted_acquired_lot"), lemma("C01.rank"), custom("plugins_complete", plugins_complete)]
+    out = [fn(AAM + "AbstractChronologicalAccountingMethod.seek_non_exhausted_acquired_lot"), lemma("C01.rank"), custom("plugins_complete", plugins_complete), custom("lot_window", lot_window)]
     for m in ("lifo", "hifo", "lofo"):
         out.append(fn(f"{PLUG}{m}.AccountingMethod.sort_key"))
     return out
@@ -57,6 +57,12 @@ def canaries(pr):
         finally:
             S.CONTRACTS[q] = saved
     return [("fifo_selecting_the_newest_lot_must_fail", newest_first)]
+
+
+def lot_window(pr):
+    """The window of lots offered to a disposal: lots up to the last one not later than the event, found through keys that order like (instant, id)."""
+    from props import C09
+    return C09.set_to_index_window(pr)
 
 
 MANIFEST_ENTRY = {
